@@ -363,6 +363,10 @@ def history_cases(draw, tier):
     return case
 
 
+# (what round 8 added to the case domain; part of the evidence text)
+RULE_ROUND8 = " One generated forest in 20 (60 in the thorough tier) is a BIG one (gen.big_specs: a child list of 11..300 nodes, that many clones of one data object, more than 256 nodes), with node references aimed at notable positions of the long child lists. Names contain the path separators in use ('x/y', 'p|q', 'a > b', '/'); a third of the random cases use Tree(factory=<Node subclass with its own name>)."
+RULE = RULE + RULE_ROUND8
+
 PARTS = [
     Part("after-history", run_after_history, strategy=history_cases, n={"quick": 800, "thorough": 40000}),
     Part("exhaustive", run, enum=enum_cases),
